@@ -25,14 +25,12 @@ impl HgignoreFilter {
 }
 
 pub fn search_upstream_hgignore(hgignore_filters: &mut Vec<HgignoreFilter>, dir: &Path) {
-    if let Ok(canonical_path) = crate::util::canonical_path(&dir.to_path_buf()) {
-        let mut path = std::path::PathBuf::from(canonical_path);
-
+    // (the path itself, not its display text: a name that is no valid Unicode exists under
+    // its own bytes only)
+    if let Ok(mut path) = std::fs::canonicalize(dir) {
         loop {
-            let hgignore_file = path.join(".hgignore");
-            let hg_directory = path.join(".hg");
-
-            if hgignore_file.is_file() && hg_directory.is_dir() {
+            // the nearest directory with a .hg is the repository root, with or without ignore file
+            if path.join(".hg").is_dir() {
                 update_hgignore_filters(hgignore_filters, &mut path);
                 return;
             }
@@ -157,7 +155,8 @@ fn parse_hgignore(
                         Ok(line) => {
                             if line.starts_with("syntax:") {
                                 let line = line.replace("syntax:", "");
-                                let syntax_directive = line.trim();
+                                // (a comment may follow on the same line)
+                                let syntax_directive = line.split('#').next().unwrap_or("").trim();
                                 // an unknown name is reported, the other lines stay in force
                                 match Syntax::from(syntax_directive) {
                                     Ok(parsed_syntax) => syntax = parsed_syntax,
